@@ -93,11 +93,7 @@ class StatusRate:
     def __get_rate(self) -> float:
         num_status_frames: int = self.__get_num_status_frames()
         num_total_frames: int = self.__get_num_total_frames()
-        return (
-            num_status_frames / num_total_frames
-            if num_status_frames != 0.0 and num_total_frames != 0.0
-            else float("inf")
-        )
+        return num_status_frames / num_total_frames if num_total_frames != 0.0 else float("inf")
 
 
 StatusRates = Tuple[StatusRate, StatusRate, StatusRate, StatusRate]
